@@ -141,7 +141,17 @@ func c04Gen(r *rand.Rand, tier string) []Case {
 				// also exactly the remaining limit, one less and one more
 				c = append(c, fmt.Sprintf("sallow decrease %s - ? # method=%s", pick(r, []string{fmt.Sprint(1 + r.Intn(1500)), "lim", "lim", "lim-1", "lim+1"}), method))
 			case x < 8:
-				c = append(c, fmt.Sprintf("sallow revoke 0 - ? # method=%s", method))
+				if r.Intn(2) == 0 {
+					c = append(c, fmt.Sprintf("sallow revoke 0 - ? # method=%s", method))
+				} else {
+					// one call naming both message types (each type's grant moves by the same amount)
+					op := pick(r, []string{"approve", "decrease", "decrease", "increase", "revoke"})
+					arg := fmt.Sprint(1 + r.Intn(3000))
+					if op == "decrease" {
+						arg = pick(r, []string{arg, "lim", "lim-1", fmt.Sprint(1 + r.Intn(300))})
+					}
+					c = append(c, fmt.Sprintf("sallow2 %s %s ? ? ? # order=%s", op, arg, pick(r, []string{"ud", "du"})))
+				}
 			case x < 9:
 				c = append(c, "newval")
 			default:
@@ -151,6 +161,14 @@ func c04Gen(r *rand.Rand, tier string) []Case {
 				amt := pick(r, []string{"lim-1", "lim", "lim+1", "half", fmt.Sprintf("abs:%d", 1+r.Intn(3000))})
 				c = append(c, fmt.Sprintf("scall 0 %d %d %d ? ? ? # method=%s amt=%s", caller, deleg, val, method, amt))
 			}
+		}
+		if r.Intn(3) == 0 {
+			// both types granted alike, reduced in one call by more than half, then both spent to the limit
+			a := 100 + r.Intn(900)
+			d := a/2 + 1 + r.Intn(a/2-1)
+			c = append(c, fmt.Sprintf("sallow2 approve %d ? ? ? # order=ud", a), fmt.Sprintf("sallow2 decrease %d ? ? ? # order=%s", d, pick(r, []string{"ud", "du"})),
+				"scall 0 1 0 0 ? ? ? # method=delegate amt=lim+1", "scall 0 1 0 0 ? ? ? # method=delegate amt=lim",
+				"scall 0 1 0 0 ? ? ? # method=undelegate amt=lim+1", "scall 0 1 0 0 ? ? ? # method=undelegate amt=lim")
 		}
 		if r.Intn(2) == 0 {
 			// the granter takes back exactly what is left, then the contract tries to spend
@@ -346,6 +364,93 @@ func c04Exec(c Case) (outs []string, fails []Failure, tags []string) {
 				}
 				out = st + " " + post
 				tags = append(tags, "allow-"+f[1]+"-"+st)
+				checkThird()
+			case "sallow2":
+				// sallow2 <op> <arg> <allow> <grantU> <grantD> # order=ud|du — one call naming both message types
+				preU, paU := c04Grant("undelegate")
+				preD, _ := c04Grant("delegate")
+				var now []string
+				app.StakingKeeper.IterateValidators(nw.GetContext(), func(_ int64, v stakingtypes.ValidatorI) bool {
+					if !v.IsJailed() {
+						now = append(now, fmt.Sprint(c04ValID(v.GetOperator().String())))
+					}
+					return false
+				})
+				f[3] = "-"
+				if f[1] == "approve" {
+					f[3] = strings.Join(now, ",")
+				}
+				f[4], f[5] = preU, preD
+				if strings.HasPrefix(f[2], "lim") {
+					lim := big.NewInt(700)
+					if paU != nil && paU.MaxTokens != nil {
+						lim = paU.MaxTokens.Amount.BigInt()
+					}
+					if f[2] == "lim-1" {
+						lim = new(big.Int).Sub(lim, big.NewInt(1))
+					}
+					if lim.Sign() < 0 {
+						lim = big.NewInt(0)
+					}
+					f[2] = lim.String()
+				}
+				c[i] = strings.Join(f, " ")
+				amt := mustBig(f[2])
+				urls := []string{stakingpc.UndelegateMsg, stakingpc.DelegateMsg}
+				if kv["order"] == "du" {
+					urls = []string{stakingpc.DelegateMsg, stakingpc.UndelegateMsg}
+				}
+				var in []byte
+				var err error
+				switch f[1] {
+				case "approve":
+					in, err = sabi.Pack("approve", puppetAddr, amt, urls)
+				case "increase":
+					in, err = sabi.Pack("increaseAllowance", puppetAddr, amt, urls)
+				case "decrease":
+					in, err = sabi.Pack("decreaseAllowance", puppetAddr, amt, urls)
+				case "revoke":
+					in, err = sabi.Pack("revoke", puppetAddr, urls)
+				}
+				if err != nil {
+					panic(err)
+				}
+				res, _, _ := c07Send(puppetOrigin, evmtypes.EvmTxArgs{To: &stk, Input: in, GasLimit: 3_000_000, GasPrice: price})
+				okExec := res.Code == 0
+				if okExec {
+					if txr, e := evmtypes.DecodeTxResponse(res.Data); e == nil && txr.Failed() {
+						okExec = false
+					}
+				}
+				postU, _ := c04Grant("undelegate")
+				postD, _ := c04Grant("delegate")
+				st := "fail"
+				if okExec {
+					st = "ok"
+					for _, method := range []string{"undelegate", "delegate"} {
+						g := c04Ghost[method]
+						switch f[1] {
+						case "approve":
+							if amt.Sign() == 0 {
+								c04Ghost[method] = &c04Ledger{}
+							} else {
+								c04Ghost[method] = &c04Ledger{limited: true, granted: new(big.Int).Set(amt), spent: big.NewInt(0)}
+							}
+						case "increase":
+							if g != nil && g.limited {
+								g.granted.Add(g.granted, amt)
+							}
+						case "decrease":
+							if g != nil && g.limited {
+								g.granted.Sub(g.granted, amt)
+							}
+						case "revoke":
+							c04Ghost[method] = &c04Ledger{}
+						}
+					}
+				}
+				out = st + " " + postU + " " + postD
+				tags = append(tags, "allow2-"+f[1]+"-"+st)
 				checkThird()
 			case "scall":
 				method := kv["method"]
